@@ -36,6 +36,9 @@ def classify(n):
         return "optional::value", n.get("obj"), "std::bad_optional_access"
     if name in ("operator*", "operator->") and cls.startswith("std::optional"):
         return "optional-deref", n.get("obj"), "UB"
+    if name in ("operator*", "operator->") and ("__normal_iterator" in cls or "_iterator<" in cls or "_Node_iterator" in cls
+                                                   or "_Rb_tree" in cls) and cls.startswith(("__gnu_cxx::", "std::")):
+        return "iter-deref", n.get("obj"), "UB"
     if name in ("front", "back") and ("vector" in cls or "basic_string" in cls):
         return name, n.get("obj"), "UB"
     if name == "operator[]" and ("basic_string_view" in cls or cls.startswith("std::basic_string<") or cls.startswith("std::vector")):
@@ -74,6 +77,10 @@ def self_guarded(kind, ot, guard, idx=None):
             # comparison involving *ot implies engaged (it is evaluated after `ot &&`)
             if ("*" + ot + " ") in g and ot in guard:
                 return g
+        if kind == "iter-deref":
+            # the result of a search is dereferenced only after it was compared with the end of the range
+            if (g.endswith(" != " + ot) and g.startswith(("end(", "cend("))) or g.startswith(ot + " != end(") or g.startswith(ot + " != cend("):
+                return g
         if kind in ("front", "back", "subscript", "substr"):
             if idx and kind == "subscript" and not re.fullmatch(r"\d+", idx):
                 # a computed index needs its own bound: `idx < obj.size()` or `(idx + k) < obj.size()`
@@ -96,6 +103,11 @@ def sites(f=None):
             if not cl:
                 continue
             kind, obj, exc = cl
+            if kind == "iter-deref":
+                # only results of searches can be past-the-end (range-for iterators and try_emplace results cannot)
+                t0 = text_of(obj, fn)
+                if not re.search(r"(^|\.)(lower_bound|upper_bound|find|find_if|find_if_not|min_element|max_element|search|adjacent_find|equal_range)\(", t0):
+                    continue
             par = par or gen.parents(fn)
             g = gguard.guard_of(fn, n, par)
             ot = text_of(obj, fn)
